@@ -51,6 +51,14 @@ def chainProbeTable (n : Nat) : List Nat :=
   (List.range n).flatMap fun lane => [false, true].flatMap fun c =>
     Netlist.probeSyms.map fun s => chainProbe n lane s.1 (s.2 == 1) c
 
+/-! ### the set of code words (specification vocabulary, served by the driver) -/
+
+/-- Bit `w` is set iff the 10-bit word `w` is the encoding of a data byte or defined control symbol under some
+    running disparity (proof artefact; `fin_code_image`/`fin_code_preimage` show it is exactly the image). -/
+def codeMask : Nat := 4352014392959495412947095964500238712258574323220877312933185503668046783355921383586562151813472576557158919812917880646885683414647289081631460845416052267589054483119010950670981733806348990549467022887224071787796812227748988145857234852964705882006497991705056037761245704617984
+
+def isCodeWord (w : Nat) : Bool := codeMask.testBit w
+
 /-- The regenerated tables by bit order. -/
 def netEnc (lsb : Bool) : List Nat := if lsb then Netlist.encLsb else Netlist.encMsb
 def netDec (lsb : Bool) : List Nat := if lsb then Netlist.decLsb else Netlist.decMsb
